@@ -63,9 +63,10 @@ def legit (w : World) (i : InstW) (op : PendingOp) : Bool × String :=
       match before with
       | none => (true, "")
       | some r =>
-        let inStop := w.apis.any fun a => a.inst == i.cfg.id && (match a.kind with | .stopctx d _ _ _ => d | _ => false)
+        -- (judged by the moment the Delete was issued: a call that runs out of time returns while its Delete is still in flight)
+        let inStop := op.inStopAtCall
         -- did the deleting instance lead when its stop call began?  (distinguishes the histories of known finding F10)
-        let ledAtStop := w.apis.any fun a => a.inst == i.cfg.id && a.flagAtCall && (match a.kind with | .stopctx d _ _ _ => d | _ => false)
+        let ledAtStop := op.ledAtStop
         let how := if ledAtStop then "it led when its StopWithContext(DeleteKey) began and the record changed hands since"
                    else "it did not lead when its stop call began"
         match r.val with
@@ -90,6 +91,13 @@ def isRefresh0 (x : InstW) (op : PendingOp) : Bool :=
 
 /-- flags currently raised for `key`. -/
 def claimants (w : World) (key : String) : List InstW := w.insts.filter fun x => x.flag ∧ x.cfg.key = key
+
+/-- The time a stop call may take (C09): Stop waits at most 5 s (the demotion callbacks of the harness return at once);
+    StopWithContext is bounded by its option, else by its context's deadline, else by the same default. -/
+def stopBudget : ApiKind → Option Nat
+  | .stop => some 5000000000
+  | .stopctx _ _ to cto => some (if to ≠ 0 then to else if cto ≠ 0 then cto else 5000000000)
+  | _ => none
 
 /-- C02 state invariant (under its hypotheses). -/
 def c02 (w : World) (h : Hyp) : World :=
@@ -292,7 +300,10 @@ def step (m : MState) (e : TEv) : MState :=
   | .hyp a b c d f ml fe => { m with w := w0, hyp := ⟨a, b, c, d, f, ml, fe⟩ }
   | .inst c => { m with w := { w0 with insts := w0.insts ++ [{ cfg := c }] } }
   | .call op i kind key exp val =>
-    let w := { w0 with ops := { id := op, inst := i, kind := kind, key := key, exp := exp, val := val, issued := e.t } :: w0.ops }
+    let stopDel := w0.apis.any fun a => a.inst == i && (match a.kind with | .stopctx d _ _ _ => d | _ => false)
+    let stopLed := w0.apis.any fun a => a.inst == i && a.flagAtCall && (match a.kind with | .stopctx d _ _ _ => d | _ => false)
+    let w := { w0 with ops := { id := op, inst := i, kind := kind, key := key, exp := exp, val := val, issued := e.t,
+                                inStopAtCall := stopDel, ledAtStop := stopLed } :: w0.ops }
     let w := match w.inst? i with
       | some x =>
         -- C09: no new store operation after a stop returned (until the next Start)
@@ -549,6 +560,11 @@ def step (m : MState) (e : TEv) : MState :=
     match w0.apis.find? (·.n = n), w0.inst? i with
     | some a, some x =>
       let w := { w0 with apis := w0.apis.filter (·.n ≠ n) }
+      -- C09: a stop call returns within its time budget (whatever it returns)
+      let w := match stopBudget a.kind with
+        | some b => checkW w (decide (e.t ≤ a.t + b)) "C09" "stop-exceeds-its-timeout"
+            s!"instance {i}: {repr a.kind} called at {a.t} returned at {e.t}, {e.t - a.t - b} ns after its time budget of {b} ns"
+        | none => w
       let w := match a.kind, r with
         | .start, .ok =>
           ({ w with apis := w.apis.map fun (a : ApiCall) => if a.inst = i then { a with superseded := true } else a } : World).updInst i fun x =>
@@ -655,6 +671,12 @@ def step (m : MState) (e : TEv) : MState :=
   | .newErr _ => { m with w := w0 }
   | .end_ =>
     let w := w0.insts.foldl (fun acc x => earlyCancelled acc x (e.t + 1)) w0
+    -- C09: stop calls still in progress beyond their time budget never returned
+    let w := w0.apis.foldl (fun acc (a : ApiCall) =>
+      match stopBudget a.kind with
+      | some b => checkW acc (decide (e.t ≤ a.t + b)) "C09" "stop-does-not-return"
+          s!"instance {a.inst}: {repr a.kind} called at {a.t} has not returned at the end of the scenario ({e.t}), time budget {b} ns"
+      | none => acc) w
     { m with w := { w with ended := true } }
   | .gor n => { m with w := checkW w0 (n = 0) "C09" "goroutines-left" s!"{n} library goroutines alive after every instance was stopped and all operations returned" }
 
